@@ -12,7 +12,10 @@ RULE = ("static: every column-name list of width 1..3 over the 18-name core pool
         "view (t.cols()[i].name / getattr(t, accessor).name), attribute replacement, >> (vector and dict form) and dir(), followed by "
         "the observations in a random order so that every lookup path meets a possibly stale cached map. Every observation "
         "(dir, getattr, t[0].name, t[0,name]=x on the live table, t[stored name], dot row of repr, column_names) is judged by the "
-        "Lean driver against the accessors of the stored names. non-trivial = some advertised accessor differs from the stored name "
+        "Lean driver against the accessors of the stored names. forms (gap analysis): the same observations with every key form of item "
+        "assignment (t[0,a], t[0,(a,)], t[0,[a]], t[0:1,a], t[0:1,(a,)]), every route to a row (t[0], iteration, t[-1]), on tables derived "
+        "from the live one (copy, copy.copy, deepcopy, pickle, slice, masks), with 0/1/2/3 rows, five construction routes, four replacement "
+        "value forms, three routes to a live column view, table-valued and self appends, widths 15..40 and 101+. non-trivial = some advertised accessor differs from the stored name "
         "of its column (sanitised, suffixed, generated) or the history is non-empty")
 ASSUMPTIONS = ["column names are str or None (other objects as names are outside the quantifier)",
                "the model starts after str.lower(): the harness sends name.lower() as code points (full Unicode case mapping is not available in Lean)",
@@ -94,6 +97,91 @@ def _rand_ops(rng, width, pool):
     return ops
 
 
+# --- dimensions the lookups branch on but the classic families keep fixed (each has a default = the classic behaviour) ------------
+SETFORMS = ["scalar", "tuple", "list", "slice", "slicetuple"]   # t[0, a] = x | t[0, (a,)] = [x] | t[0, [a]] = [x] | t[0:1, a] = [x] | t[0:1, (a,)] = [[x]]
+ROWVIA = ["index", "iter", "last"]                             # t[0] | next(iter(t)) | t[-1]
+DERIVE = [None, "copy", "copy.copy", "deepcopy", "pickle", "slice", "mask", "maskvec"]   # observe a table derived from the live one
+NROWS = [2, 0, 1, 3]
+BUILD = ["list", "dict", "wild", "rshift", "tuple"]            # how the table is constructed
+REPLFORM = ["vec", "named", "list", "wild"]                    # what is assigned by t.<accessor> = value
+VIEWROUTE = ["cols", "colsi", "getitem"]                       # how a live column view is obtained before it is renamed
+TRICKY = [["a b", "a_b"], ["a", "A"], ["sum", "Sum"], [None, "col0_"], ["a__1", "a", "a"], ["x", "x", "x"],
+          ["A B", "a-b", "a_b", None], ["cols", "col1_", ""], ["1a", "c1a"], ["İ", "i"], ["a", "b", "a", "b"],
+          ["class", "class_"], ["zz", "a"], ["col1_", None], ["a", "a__1"], ["T", "t", "name"]]
+DEFAULTS = {"setform": "scalar", "rowvia": "index", "derive": None, "nrows": 2, "build": "list"}
+OBS0 = ["dir", "getattr", "peek", "getitem", "repr"]           # what can be observed on a table without rows
+
+
+def _variant(spec, **kw):
+    out = dict(spec)
+    for k, v in kw.items():
+        if v != DEFAULTS.get(k):
+            out[k] = v
+    if out.get("nrows", 2) == 0:
+        out["obs"] = [o for o in out["obs"] if o in OBS0]
+    return out
+
+
+def _generate_forms(rng, quick):
+    dims = [("setform", SETFORMS), ("rowvia", ROWVIA), ("derive", DERIVE), ("nrows", NROWS), ("build", BUILD)]
+    # 5a. scripted: every value of every dimension alone, on tricky name lists, on a fresh table and on one whose cached map
+    #     is stale (a column renamed through a live view, nothing asked of the table since)
+    for names in TRICKY:
+        for stale in (False, True):
+            ops = [["view", len(names) - 1, "zz", "name"]] if stale else []
+            base = {"fam": "hist" if stale else "static", "var": "forms", "names": names, "ops": ops, "obs": OBS}
+            for key, values in dims:
+                for v in values:
+                    if v != DEFAULTS[key]:
+                        yield _variant(base, **{key: v})
+            # the stale map met first by each observation kind, on a derived table too
+            if stale:
+                for first in OBS:
+                    yield _variant(dict(base, obs=[first] + [o for o in OBS if o != first]), derive=rng.choice(DERIVE[1:]),
+                                   setform=rng.choice(SETFORMS), rowvia=rng.choice(ROWVIA))
+                # ... and every form of the row / item-assignment lookups as the FIRST thing that meets the stale map
+                for rv in ROWVIA:
+                    for first in ("row", "rowitem"):
+                        yield _variant(dict(base, obs=[first] + [o for o in OBS if o != first]), rowvia=rv)
+                for sf in SETFORMS[1:]:
+                    yield _variant(dict(base, obs=["setitem"] + [o for o in OBS if o != "setitem"]), setform=sf)
+                for dv in DERIVE[1:]:
+                    first = rng.choice(OBS)
+                    yield _variant(dict(base, obs=[first] + [o for o in OBS if o != first]), derive=dv)
+            # every replacement value form / every route to the view / table-valued and self appends
+            for rf in REPLFORM:
+                yield dict(base, fam="hist", ops=ops + [["replace", rng.randrange(16), rf, rng.choice(names + ["zz"])]])
+            for route in VIEWROUTE:
+                for how in ("name", "alias", "rename"):
+                    yield dict(base, fam="hist", ops=[["view", rng.randrange(16), rng.choice(["zz", "a", None]), how, route]])
+            yield dict(base, fam="hist", ops=ops + [["appendtable", [rng.choice(names), "zz"]]])
+            yield dict(base, fam="hist", ops=ops + [["appendself", rng.randrange(16)]])
+    # 5b. widths beyond the classic 14: two-digit suffixes on both sides of the repr ellipsis, three-digit suffixes
+    for w in list(range(15, 41, 5)) * (2 if quick else 8) + [101, 113] * (1 if quick else 4):
+        pool = rng.sample(POOL, rng.randint(1, 3)) + rng.choice([[], [None], ["", None]])
+        yield {"fam": "wide", "var": "wider", "names": [rng.choice(pool) for _ in range(w)], "ops": [], "obs": rng.sample(OBS, len(OBS))}
+        yield {"fam": "hist", "var": "wider", "names": [rng.choice(pool) for _ in range(w)],
+               "ops": [["view", rng.randrange(w), rng.choice(pool), "name"]], "obs": rng.sample(OBS, len(OBS))}
+    # 5c. random histories with every dimension drawn at random
+    for _ in range(1000 if quick else 30000):
+        w = rng.randint(1, 4) if rng.random() < 0.85 else rng.randint(5, 12)
+        pool = rng.sample(POOL, rng.randint(2, 5)) + [None]
+        names = [rng.choice(pool) for _ in range(w)]
+        ops = _rand_ops(rng, w, pool)
+        for i, op in enumerate(ops):
+            r = rng.random()
+            if op[0] == "replace":
+                ops[i] = op + [rng.choice(REPLFORM), rng.choice(pool)]
+            elif op[0] == "view":
+                ops[i] = op + [rng.choice(VIEWROUTE)]
+            elif op[0] == "append" and r < 0.3:
+                ops[i] = ["appendtable", [rng.choice(pool) for _ in range(rng.randint(1, 3))]]
+            elif op[0] == "append" and r < 0.5:
+                ops[i] = ["appendself", rng.randrange(16)]
+        yield _variant({"fam": "hist", "var": "forms", "names": names, "ops": ops, "obs": rng.sample(OBS, len(OBS))},
+                       **{key: (rng.choice(values) if rng.random() < 0.5 else DEFAULTS[key]) for key, values in dims})
+
+
 def generate(rng, tier):
     quick = tier == "quick"
     # 1. exhaustive small scopes
@@ -116,6 +204,11 @@ def generate(rng, tier):
     for n in _public_attribute_names():
         yield {"fam": "static", "names": [n], "ops": [], "obs": OBS}
         yield {"fam": "static", "names": ["a", n.upper()], "ops": [], "obs": OBS}
+    # 1c. (gap analysis) dimensions the other families keep fixed: key forms of item assignment, routes to a row, derived tables,
+    #     row counts 0/1/3, construction routes, replacement value forms, table-valued appends, widths beyond 14. A sub-generator
+    #     with a generator of its own (seeded from the state of rng without drawing from it), so the other streams are unchanged
+    #     and these cases run before the large random families can exhaust the time budget.
+    yield from _generate_forms(random.Random(hash(rng.getstate()[1][:8])), quick)
     # 2. sanitisation of single names
     for _ in range(3000 if quick else 30000):
         yield {"fam": "san", "names": ["".join(rng.choice(ALPHA) for _ in range(rng.randint(0, 9)))], "ops": [], "obs": ["dir", "getattr", "repr"]}
@@ -156,9 +249,47 @@ class _Intern:
         return None if w is None else w[0]
 
 
-def _build(names):
+def _build(names, nrows=2, how="list"):
+    """the table under test; cell (r, i) = 100 * (r + 1) + i. `how` = construction route (all must keep the names)"""
     from serif import Table, Vector
-    return Table([Vector([100 + i, 200 + i], name=n) for i, n in enumerate(names)])
+    data = [[100 * (r + 1) + i for r in range(nrows)] for i in range(len(names))]
+    if how == "dict" and all(isinstance(n, str) for n in names) and len(set(names)) == len(names):
+        return Table({n: d for n, d in zip(names, data)})
+    if how == "wild":
+        # vectors named after their creation (flagged as renamed when the table receives them)
+        cols = [Vector(d) for d in data]
+        for c, n in zip(cols, names):
+            c.name = n
+        return Table(cols)
+    if how == "rshift" and len(names) >= 2:
+        t = Vector(data[0], name=names[0]) >> Vector(data[1], name=names[1])
+        for d, n in zip(data[2:], names[2:]):
+            t = t >> Vector(d, name=n)
+        return t
+    if how == "tuple":
+        return Table(tuple(Vector(d, name=n) for d, n in zip(data, names)))
+    return Table([Vector(d, name=n) for d, n in zip(data, names)])
+
+
+def _derive(t, how, nrows):
+    """a table obtained from the live one: it must answer to the same accessors (its map must not be a stale copy)"""
+    import copy, pickle
+    from serif import Vector
+    if how == "copy":
+        return t.copy()
+    if how == "copy.copy":
+        return copy.copy(t)
+    if how == "deepcopy":
+        return copy.deepcopy(t)
+    if how == "pickle":
+        return pickle.loads(pickle.dumps(t))
+    if how == "slice":
+        return t[0:nrows]
+    if how == "mask":
+        return t[[True] * nrows]
+    if how == "maskvec":
+        return t[Vector([True] * nrows)]
+    return t
 
 
 def _advertised(t):
@@ -231,8 +362,13 @@ class _Run:
         if not names:
             return {"skip": "zero columns"}
         class_attrs = set(dir(V)) | set(dir(T))
-        t = _build(names)
-        self.log.append(f"t = Table([Vector([100 + i, 200 + i], name=n) for i, n in enumerate({names!r})])")
+        nrows = spec.get("nrows", 2)
+        setform, rowvia = spec.get("setform", "scalar"), spec.get("rowvia", "index")
+        t = _build(names, nrows, spec.get("build", "list"))
+        if not isinstance(t, Table) or t.column_names() != names or len(t) != nrows:
+            return {"skip": "this construction route does not give a table with these names (not C17's subject)"}
+        self.log.append(f"t = Table([Vector([100 * (r + 1) + i for r in range({nrows})], name=n) for i, n in enumerate({names!r})])"
+                        + (f"   # built by route {spec['build']!r}" if spec.get("build") else ""))
         init_wire = [self.intern.wire(n) for n in names]
         wops, iops = [], []
         for op in spec["ops"]:
@@ -256,8 +392,16 @@ class _Run:
                 i = op[1] % len(cur)
                 wops.append(["view", i, self.intern.wire(op[2])])
                 self.log.append(f"c = t.cols()[{i}]; c.name = {op[2]!r}")
+                route = op[4] if len(op) > 4 else "cols"
+                if route == "getitem" and isinstance(cur[i], str):
+                    i = cur.index(cur[i])       # t[stored name] is the first column of that name
+                    wops[-1][1] = i
+                    self.log[-1] = f"c = t[{cur[i]!r}]; c.name = {op[2]!r}"
                 try:
-                    c = t.cols()[i]; _rename_view(c, op[2], op[3] if len(op) > 3 else "name"); iops.append("ok")
+                    c = t.cols(i) if route == "colsi" else t[cur[i]] if route == "getitem" and isinstance(cur[i], str) else t.cols()[i]
+                    if c is not t.cols()[i]:
+                        return {"skip": "this route does not give the live column (not C17's subject)"}
+                    _rename_view(c, op[2], op[3] if len(op) > 3 else "name"); iops.append("ok")
                     del c
                 except Exception as e:
                     iops.append(_err(e))
@@ -280,10 +424,20 @@ class _Run:
                 a = adv[op[1] % len(adv)]
                 wops.append(["replace", a])
                 nv = self.fresh_value()
-                self.log.append(f"setattr(t, {a!r}, Vector([{nv}, {nv + 1}]))")
+                form = op[2] if len(op) > 2 else "vec"
+                vals = [nv + r for r in range(nrows)]
+                if form == "named":
+                    value = Vector(vals, name=op[3]); vtxt = f"Vector({vals!r}, name={op[3]!r})"
+                elif form == "list":
+                    value = vals; vtxt = repr(vals)
+                elif form == "wild":
+                    value = Vector(vals); value.name = op[3]; vtxt = f"(a vector named {op[3]!r} after its creation)"
+                else:
+                    value = Vector(vals); vtxt = f"Vector({vals!r})"
+                self.log.append(f"setattr(t, {a!r}, {vtxt})   # the column keeps its stored name")
                 before = list(t.cols())
                 try:
-                    setattr(t, a, Vector([nv, nv + 1]))
+                    setattr(t, a, value)
                     after = list(t.cols())
                     iops.append([j for j in range(len(after)) if j >= len(before) or after[j] is not before[j]])
                 except Exception as e:
@@ -294,14 +448,37 @@ class _Run:
                 nv = self.fresh_value()
                 try:
                     if kind == "append":
-                        self.log.append(f"t = t >> Vector([{nv}, {nv + 1}], name={op[1]!r})")
-                        t = t >> Vector([nv, nv + 1], name=op[1])
+                        self.log.append(f"t = t >> Vector({[nv + r for r in range(nrows)]!r}, name={op[1]!r})")
+                        t = t >> Vector([nv + r for r in range(nrows)], name=op[1])
                     else:
-                        self.log.append(f"t = t >> {{{op[1]!r}: [{nv}, {nv + 1}]}}")
-                        t = t >> {op[1]: [nv, nv + 1]}
+                        self.log.append(f"t = t >> {{{op[1]!r}: {[nv + r for r in range(nrows)]!r}}}")
+                        t = t >> {op[1]: [nv + r for r in range(nrows)]}
                     iops.append("ok")
                 except Exception as e:
                     iops.append(_err(e))
+                if not isinstance(t, Table):
+                    return {"skip": "append did not give a table"}
+            elif kind in ("appendtable", "appendself"):
+                if kind == "appendself":
+                    j = op[1] % len(cur)
+                    new_names = [cur[j]]
+                    self.log.append(f"t = t >> t.cols()[{j}]")
+                else:
+                    new_names = list(op[1])
+                    self.log.append(f"t = t >> Table([Vector([...], name=n) for n in {new_names!r}])")
+                try:
+                    if kind == "appendself":
+                        t = t >> t.cols()[j]
+                        nv = self.fresh_value()
+                        for r in range(nrows):      # rows identify a column by its cells: give the new column cells of its own
+                            t.cols()[-1][r] = nv + r
+                    else:
+                        t = t >> Table([Vector([self.fresh_value() + r for r in range(nrows)], name=n) for n in new_names])
+                    res = "ok"
+                except Exception as e:
+                    res = _err(e)
+                for n in new_names:
+                    wops.append(["append", self.intern.wire(n)]); iops.append(res)
                 if not isinstance(t, Table):
                     return {"skip": "append did not give a table"}
             elif kind == "dir":
@@ -312,9 +489,21 @@ class _Run:
                 raise ValueError(kind)
         # ---- observations on the live table, in the requested order
         final = t.column_names()
+        if spec.get("derive"):
+            d = _derive(t, spec["derive"], nrows)
+            self.log.append({"copy": "t = t.copy()", "copy.copy": "t = copy.copy(t)", "deepcopy": "t = copy.deepcopy(t)",
+                             "pickle": "t = pickle.loads(pickle.dumps(t))", "slice": f"t = t[0:{nrows}]",
+                             "mask": f"t = t[[True] * {nrows}]", "maskvec": f"t = t[Vector([True] * {nrows})]"}[spec["derive"]]
+                            + "   # the derived table answers to the same accessors")
+            if not isinstance(d, Table) or d.column_names() != final or len(d) != nrows:
+                return {"skip": "the derived object is not a table with the same names and rows (not C17's subject)"}
+            t = d
+            del d
         adv_names = _fresh_adv(final)
         obs = []
         for k in spec["obs"]:
+            if nrows == 0 and k in ("row", "rowitem", "setitem"):
+                continue
             if k == "dir":
                 adv = _advertised(t)
                 self.log.append("adv = sorted(set(dir(t)) - set(object.__dir__(t)))")
@@ -331,10 +520,12 @@ class _Run:
                 obs.append({"k": "getattr", "res": res})
             elif k == "row":
                 res = []
-                self.log.append(f"r = t[0]; [getattr(r, a) for a in {adv_names!r}]")
+                ri = nrows - 1 if rowvia == "last" else 0
+                rtxt = {"index": "t[0]", "iter": "next(iter(t))", "last": "t[-1]"}[rowvia]
+                self.log.append(f"r = {rtxt}; [getattr(r, a) for a in {adv_names!r}]")
                 try:
-                    r = t[0]
-                    firsts = [c[0] for c in t.cols()]
+                    r = t[0] if rowvia == "index" else next(iter(t)) if rowvia == "iter" else t[-1]
+                    firsts = [c[ri] for c in t.cols()]
                     for a in adv_names:
                         try:
                             v = getattr(r, a)
@@ -386,12 +577,23 @@ class _Run:
                 obs.append({"k": "rowitem", "res": res, "non": non})
             elif k == "setitem":
                 res = []
-                self.log.append(f"for k, a in enumerate({adv_names!r}): t[0, a] = 5000 + k   # must change exactly its own column")
+                stxt = {"scalar": "t[0, a] = 5000 + k", "tuple": "t[0, (a,)] = [5000 + k]", "list": "t[0, [a]] = [5000 + k]",
+                        "slice": "t[0:1, a] = [5000 + k]", "slicetuple": "t[0:1, (a,)] = [[5000 + k]]"}[setform]
+                self.log.append(f"for k, a in enumerate({adv_names!r}): {stxt}   # must change exactly its own column")
                 for a in adv_names:
                     before = [c[0] for c in t.cols()]
                     nv = self.fresh_value()
                     try:
-                        t[0, a] = nv
+                        if setform == "tuple":
+                            t[0, (a,)] = [nv]
+                        elif setform == "list":
+                            t[0, [a]] = [nv]
+                        elif setform == "slice":
+                            t[0:1, a] = [nv]
+                        elif setform == "slicetuple":
+                            t[0:1, (a,)] = [[nv]]
+                        else:
+                            t[0, a] = nv
                         after = [c[0] for c in t.cols()]
                         ch = [j for j in range(len(after)) if after[j] != before[j]]
                         res.append([a, ch[0] if len(ch) == 1 and after[ch[0]] == nv else -1])
